@@ -186,6 +186,52 @@ def mp4_two_free_before(d):
     return nd
 
 
+def mp4_mdat_both_sides(d):
+    """[.., mdat, moov] -> [.., mdat, moov, mdat']: media data on both sides of moov, and the second half of the entries of
+    every stco/co64 table re-pointed into the new mdat, so that each table starts in front of moov and continues behind it
+    (no size field changes: the new atom is appended, the entries are overwritten in place)"""
+    atoms = W.mp4_atoms(d)
+    if atoms[-1]["name"] != b"moov" or not any(a["name"] == b"mdat" for a in atoms[:-1]):
+        return None
+    tabs = [a for a in W.mp4_flat(atoms) if a["name"] in (b"stco", b"co64") and a["path"][0] == b"moov"]
+    tabs = [a for a in tabs if struct.unpack(">I", d[a["off"] + 12:a["off"] + 16])[0] >= 2]
+    if not tabs:
+        return None
+    payload = bytes((i * i * 29 + i * 5 + 17) % 251 for i in range(600))
+    p2 = len(d) + 8
+    nd = bytearray(d + struct.pack(">I4s", len(payload) + 8, b"mdat") + payload)
+    k = 0
+    for a in tabs:
+        w = 4 if a["name"] == b"stco" else 8
+        n = struct.unpack(">I", d[a["off"] + 12:a["off"] + 16])[0]
+        for i in range(n // 2, n):
+            q = a["off"] + 16 + i * w
+            nd[q:q + w] = (p2 + (37 * k) % 560).to_bytes(w, "big")
+            k += 1
+    return bytes(nd)
+
+
+def mp4_free_before_other_after(d):
+    """[hdlr, ilst, free(N)] -> [hdlr, free(N - 28), ilst, 'xml '(20)]: the padding sits in FRONT of ilst and a non-free atom
+    follows ilst (same sizes overall)"""
+    atoms = W.mp4_atoms(d)
+    flat = list(W.mp4_flat(atoms))
+    meta = [a for a in flat if a["path"] == (b"moov", b"udta", b"meta")]
+    if not meta:
+        return None
+    ch = meta[0]["children"]
+    if [c["name"] for c in ch] != [b"hdlr", b"ilst", b"free"] or ch[2]["size"] < 28 + 64 or ch[2]["hdr"] != 8:
+        return None
+    i, f = ch[1], ch[2]
+    other = _atom(b"xml ", b"<synthetic sibling/>")
+    assert len(other) == 28
+    nf = f["size"] - 28
+    nd = (d[:i["off"]] + struct.pack(">I4s", nf, b"free") + b"\x00" * (nf - 8) + d[i["off"]:i["off"] + i["size"]] + other +
+          d[f["off"] + f["size"]:])
+    assert len(nd) == len(d)
+    return nd
+
+
 def id3_unknown_frames(d):
     """a v2.4 tag with unknown frames (two sharing one id) in front of the audio of an ID3-prefixed file"""
     body = d
@@ -299,6 +345,16 @@ def extra_samples(kind, base):
                 if x:
                     out.append(("synth-opaque-items+" + nm, x))
                     break
+            for nm, dd in base:
+                x = mp4_mdat_both_sides(dd)
+                if x:
+                    out.append(("synth-mdat-both-sides+" + nm, x))
+                    break
+            for nm, dd in base:
+                x = mp4_free_before_other_after(dd)
+                if x:
+                    out.append(("synth-free-before-other-after+" + nm, x))
+                    break
         elif kind.name in ("MP3", "ID3"):
             out.append(("synth-unknown-frames+" + name0, id3_unknown_frames(d0)))
             # a blank ID3v1 trailer (what ID3.save(v1=2) writes when no frame has an ID3v1 equivalent)
@@ -324,4 +380,10 @@ def extra_samples(kind, base):
                     out.append(("synth-multiplex-vorbis+" + name0, x))
     except Exception:
         pass
+    if kind.family == "ogg":
+        try:
+            from . import synth_ogg
+            out += synth_ogg.layouts(kind, base)
+        except Exception:
+            pass
     return out
